@@ -1557,11 +1557,11 @@ class SmtLibParser(object):
         # Parse expression using also parameters
         try:
             ebody: FNode = assert_not_none(self.get_expression(tokens))
-        except BaseException:
-            # The parameters of a definition that cannot be read are dropped
+        finally:
+            # Discard parameters (also those of a definition that
+            # cannot be read)
             for x in bindings:
                 self.cache.unbind(x)
-            raise
         ebody_type = self.env.stc.get_type(ebody)
         ebody_vars = self.env.fvo.get_free_variables(ebody)
         # Promote constant integer expression to real
@@ -1575,9 +1575,6 @@ class SmtLibParser(object):
                                    "The expected type is %s, but the detected "
                                    "expression type is %s" % (rtype, ebody_type))
 
-        #Discard parameters
-        for x in bindings:
-            self.cache.unbind(x)
         # Finish Parsing
         self.consume_closing(tokens, current)
         self.cache.define(var, formal, ebody)
